@@ -2,6 +2,7 @@ package props
 
 import (
 	"fmt"
+	"sort"
 	"strings"
 
 	"golang.org/x/tools/go/ssa"
@@ -69,16 +70,48 @@ func C11(p *engine.Prog, r *engine.Report) {
 				continue
 			}
 			n++
-			// an append to diff.Values in the same block
-			paired := false
-			for _, ins := range c.Block().Instrs {
-				if st, ok := ins.(*ssa.Store); ok {
-					if _, isV := fieldAddrOf(st.Addr, "IdentityStateDiff", "Values"); isV {
-						paired = true
+			// an append to diff.Values follows on every path: in the same block, or in blocks that every
+			// way from the tree write to the next iteration / the return passes through
+			appendBlocks := map[*ssa.BasicBlock]bool{}
+			for _, b := range pc.Blocks {
+				for _, ins := range b.Instrs {
+					if st, ok := ins.(*ssa.Store); ok {
+						if _, isV := fieldAddrOf(st.Addr, "IdentityStateDiff", "Values"); isV {
+							appendBlocks[b] = true
+						}
 					}
 				}
 			}
-			r.Check(paired, "C11-R2", "IdentityStateDB.Precommit|"+cal.Name()+" paired with a diff value", p.InstrPos(c), "append(diff.Values, …) in the same block", "a tree change is not recorded in the diff: replaying the diffs cannot reproduce the root")
+			paired := appendBlocks[c.Block()]
+			if !paired && len(appendBlocks) > 0 {
+				paired = true
+				var hdr *ssa.BasicBlock
+				for _, b := range pc.Blocks {
+					if b.Dominates(c.Block()) && b != c.Block() {
+						for _, pr := range b.Preds {
+							if b.Dominates(pr) { // back edge: b is a loop header enclosing the write
+								if hdr == nil || hdr.Dominates(b) {
+									hdr = b
+								}
+							}
+						}
+					}
+				}
+				for b := range engine.ReachAvoiding(pc, c.Block(), nil, appendBlocks) {
+					if b == c.Block() {
+						continue
+					}
+					if b == hdr {
+						paired = false // next iteration reached without an append
+					}
+					if len(b.Instrs) > 0 {
+						if _, isRet := b.Instrs[len(b.Instrs)-1].(*ssa.Return); isRet {
+							paired = false
+						}
+					}
+				}
+			}
+			r.Check(paired, "C11-R2", "IdentityStateDB.Precommit|"+cal.Name()+" paired with a diff value", p.InstrPos(c), "append(diff.Values, …) follows on every path of the iteration", "a tree change is not recorded in the diff: replaying the diffs cannot reproduce the root")
 		}
 		if n == 0 {
 			r.Und("C11-R2", "IdentityStateDB.Precommit|tree writes", p.Pos(pc.Pos()), "none found")
@@ -253,6 +286,7 @@ func C11(p *engine.Prog, r *engine.Report) {
 			r.Und("C11-R3", "postConsuming|snapshot import", p.Pos(pc.Pos()), "RecoverSnapshot2 not called")
 		}
 	}
+	c11Prefix(p, r)
 	// the snapshot prefix is addressed the same way by everyone: dbm.NewPrefixDB(s.original, BuildDbPrefix(h))
 	{
 		n := 0
@@ -439,5 +473,47 @@ func c11Reorg(p *engine.Prog, r *engine.Report) {
 		}
 	}
 	_ = removesIn
-	r.Check(a || b, "C11-R1", "ResetTo/WriteIdentityStateDiff|stored diff of an abandoned height does not survive a reorg", p.Pos(rt.Pos()), "removed with the header, or cleared by an empty diff", "ResetTo removes header and canonical hash of an abandoned height but keeps its stored identity diff, and an empty diff of the replacing block does not overwrite it: the node keeps serving the abandoned block's diff, replay diverges at that height")
+	_ = a // removal in ResetTo alone is not enough: fast sync stores diffs under heights that never pass through ResetTo
+	r.Check(b, "C11-R1", "ResetTo/WriteIdentityStateDiff|stored diff of an abandoned height does not survive a reorg", p.Pos(rt.Pos()), "an empty diff clears the entry stored under its height", "ResetTo removes header and canonical hash of an abandoned height but keeps its stored identity diff, and an empty diff of the replacing block does not overwrite it: the node keeps serving the abandoned block's diff, replay diverges at that height")
+}
+
+// c11Prefix: the preliminary (fast-sync) copy of the identity tree lives under a prefix that a
+// committed snapshot / current tree of the same height can never have: the expression the copy
+// builds its prefix from differs from the one CommitSnapshot / RecoverSnapshot2 use for their
+// height. (With equal expressions a sync started while the head is the imported snapshot's height
+// replays diffs into — and on give-up drops — the live identity state.)
+func c11Prefix(p *engine.Prog, r *engine.Report) {
+	prefixExpr := func(f *ssa.Function) []string {
+		var out []string
+		for _, c := range engine.Calls(f) {
+			if !engine.CallNameIs(c, "buildDbPrefix") {
+				continue
+			}
+			args := engine.CallArgs(c)
+			out = append(out, renderVal(args[len(args)-1], 0))
+		}
+		sort.Strings(out)
+		return dedup(out)
+	}
+	cp := mustFunc(p, r, "core/state", "IdentityStateDB.CreatePreliminaryCopy")
+	if cp == nil {
+		return
+	}
+	mine := prefixExpr(cp)
+	var others []string
+	for _, n := range []string{"IdentityStateDB.CommitSnapshot", "IdentityStateDB.RecoverSnapshot2", "IdentityStateDB.DropSnapshot"} {
+		if f, _ := p.Func("core/state", n); f != nil {
+			others = append(others, prefixExpr(f)...)
+		}
+	}
+	others = dedup(others)
+	clash := ""
+	for _, m := range mine {
+		for _, o := range others {
+			if m == o {
+				clash = m
+			}
+		}
+	}
+	r.Check(len(mine) > 0 && len(others) > 0 && clash == "", "C11-R3", "IdentityStateDB.CreatePreliminaryCopy|preliminary prefix apart from the snapshot prefix of the same height", p.Pos(cp.Pos()), "prefix from {"+strings.Join(mine, ",")+"}, snapshots from {"+strings.Join(others, ",")+"}", "the preliminary copy and a committed snapshot build their prefix from the same expression of their height ("+clash+"): a fast sync started at the imported snapshot's height writes into, and on give-up drops, the current identity state")
 }
